@@ -167,7 +167,7 @@ fn std_custom_item(n: u64, i: u64, acc: &mut Acc) {
 /// more than 2048 samples per line, more than 2040 lines, and more than 2^24 samples in all.
 const LARGE: [(u16, u16); 14] = [
     (2049, 3), (2200, 18), (4100, 16), (16, 2042), (16, 2048), (18, 4100), (8, 8200), (65535, 1), (1, 65535), (40000, 9),
-    // above 2^24 samples (thorough tier only; about a second each)
+    // above 2^24 samples (about a second each; the first in both tiers, the rest in thorough)
     (5001, 3357), (4097, 4099), (65535, 257), (257, 65535),
 ];
 
@@ -277,7 +277,7 @@ pub fn run(ctx: &Ctx) -> i32 {
     reports.push(exhaustive_suite(ctx, "size_grid", gw * gh, &move |i, acc| grid_item(gw, i, acc)));
     let n = ctx.tier.pick(24u64, 72u64);
     reports.push(exhaustive_suite(ctx, "standard_custom_size_grid", n * n, &move |i, acc| std_custom_item(n, i, acc)));
-    let nlarge = ctx.tier.pick(10u64, 14u64);
+    let nlarge = ctx.tier.pick(11u64, 14u64);
     reports.push(exhaustive_suite(ctx, "large_dimension_pictures", nlarge, &large_item));
     reports.push(fixed_formats_suite());
     let cfg = cfg_for(ctx.tier);
